@@ -1,52 +1,65 @@
 package pilosa
 
-// H22 (partial): the coordinator's completion-message handler against a
-// one-shot receiver. The real receiver (handleNodeAction) takes exactly one
-// value from job.result and then ends the job; it is modelled by the harness:
-// job.result is a 1-slot channel, the harness takes at most one value ever and
-// then plugs the channel, so a later send from a handler blocks forever (which
-// the engine reports as a deadlock).
+// H22 (partial): the coordinator's handlers for completion messages and abort
+// requests against the job's one-shot receiver. The real receiver
+// (handleNodeAction) takes exactly one value from job.result, completes the
+// job with it (completeCurrentJob) and never reads the channel again. The
+// harness plays that receiver between events: job.result is a 1-slot channel
+// ("the receiver is waiting"), at most one value is ever taken, and after that
+// the channel is plugged, so a later send from a handler blocks forever - the
+// engine reports that as a deadlock.
+//
+// Events: completion messages from tracked / unknown nodes, successful or
+// failed, for the running or an unknown job id, duplicated or late; abort
+// requests through API.ResizeAbort.
 
 func VerifH22Completions() {
 	n1, n2 := &Node{ID: "n1"}, &Node{ID: "n2"}
 	j := newResizeJob([]*Node{n1}, n2, resizeJobActionAdd) // tracks n1 and n2
 	j.result = make(chan string, 1)
 	j.setState(resizeJobStateRunning)
-	c := &cluster{jobs: map[int64]*resizeJob{j.ID: j}, currentJob: j}
+	c := &cluster{jobs: map[int64]*resizeJob{j.ID: j}, currentJob: j, Node: n1, Coordinator: "n1", state: ClusterStateResizing}
+	api := &API{cluster: c}
 	received := ""
 	taken := false
-	msgs := 1 + verifChoice("messages", verifBound("messages", 2))
-	for i := 0; i < msgs; i++ {
-		m := &ResizeInstructionComplete{JobID: j.ID, Node: n1}
-		switch verifChoice("sender", 3) {
-		case 1:
-			m.Node = n2
-		case 2:
-			m.Node = &Node{ID: "stranger"}
+	aborted := false
+	events := 1 + verifChoice("events", verifBound("events", 2))
+	for i := 0; i < events; i++ {
+		if verifChoice("abort", 2) == 1 {
+			if err := api.ResizeAbort(); err == nil {
+				aborted = true
+			}
+		} else {
+			m := &ResizeInstructionComplete{JobID: j.ID, Node: n1}
+			switch verifChoice("sender", 3) {
+			case 1:
+				m.Node = n2
+			case 2:
+				m.Node = &Node{ID: "stranger"}
+			}
+			if verifChoice("unknownjob", 2) == 1 {
+				m.JobID = j.ID + 1
+			}
+			if verifChoice("failed", 2) == 1 {
+				m.Error = "boom"
+			}
+			_ = c.markResizeInstructionComplete(m)
 		}
-		if verifChoice("unknownjob", 2) == 1 {
-			m.JobID = j.ID + 1
-		}
-		if verifChoice("failed", 2) == 1 {
-			m.Error = "boom"
-		}
-		_ = c.markResizeInstructionComplete(m)
 		// the one-shot receiver
 		if !taken && len(j.result) > 0 {
 			received = <-j.result
 			taken = true
-			j.setState(received) // what completeCurrentJob does
+			_ = c.completeCurrentJob(received)
 			j.result <- "receiver gone" // nobody will ever receive again
 		}
 	}
-	verifReach("messages handled")
+	verifReach("events handled")
 	if received == resizeJobStateDone {
-		all := true
-		for _, done := range j.IDs {
-			all = all && done
-		}
-		verifAssert(all, "job reports DONE only after every target node reported success")
-		verifAssert(j.IDs["n1"] && j.IDs["n2"], "both tracked nodes reported")
+		verifAssert(j.IDs["n1"] && j.IDs["n2"], "job reports DONE only after every target node reported success")
+		verifAssert(!aborted, "no DONE after an acknowledged abort")
+	}
+	if aborted || j.isComplete() {
+		verifAssert(taken, "a job that ended released the coordinator waiting for its result")
 	}
 	verifAssert(true, "no handler panicked or blocked forever")
 }
